@@ -1843,7 +1843,13 @@ func (r *Redis) TTLCtx(ctx context.Context, key string) (val int, err error) {
 			return err
 		}
 
-		val = int(duration / time.Second)
+		if duration >= 0 {
+			val = int(duration / time.Second)
+		} else {
+			// go-redis 以 time.Duration(-2) 表示 key 不存在，以 time.Duration(-1) 表示 key 未设置过期时间；
+			// 直接整除会把二者都变成 0，与“剩余不足 1 秒”无法区分。
+			val = int(duration)
+		}
 		return nil
 	}, acceptable)
 
